@@ -6,6 +6,8 @@ Everything an op needs is in the op: no PRNG, no clock.
 """
 import json
 import operator
+import os
+import sys
 
 import numpy as np
 import puan
@@ -103,6 +105,32 @@ class _CallbackAbort(RuntimeError):
     pass
 
 
+class _AsyncAbort(BaseException):
+    """an asynchronous exception (think KeyboardInterrupt / a timeout signal) delivered at the k-th executed line of
+    library code inside one public call"""
+
+
+_PUAN_ROOT = os.path.dirname(os.path.abspath(puan.__file__)) + os.sep
+
+
+def with_async_abort(k, fn):
+    count = {"n": 0}
+
+    def tracer(frame, event, arg):
+        if not frame.f_code.co_filename.startswith(_PUAN_ROOT):
+            return None
+        if event == "line":
+            count["n"] += 1
+            if count["n"] == k:
+                raise _AsyncAbort("asynchronous abort")
+        return tracer
+    sys.settrace(tracer)
+    try:
+        return fn()
+    finally:
+        sys.settrace(None)
+
+
 def make_out(spec):
     if spec is None:
         return None
@@ -152,6 +180,8 @@ class Session:
                 self.objs[op["h"]] = o
                 return {"obj": C.canon(o)}
             if kind == "call":
+                if op.get("abort_at"):
+                    return with_async_abort(op["abort_at"], lambda: self._call(op))
                 return self._call(op)
             if kind == "next":
                 it = self._it(op["it"])
